@@ -232,3 +232,38 @@ func zzC12Accept() {
 	vAssert(j == wantJSON && s == wantStream, "C12.accept.negotiation")
 	vReach("end")
 }
+
+// H4: the schema walk binds every x-mcp-header annotation to the path of its own property, at any depth and
+// for every iteration order of the property maps (depth 4 with siblings exercises slice aliasing).
+var zzC12Props map[string]headerSchemaProperty
+
+func zzSchemaProps(schema any) map[string]headerSchemaProperty { return zzC12Props }
+
+func zzC12Annotate() {
+	leaf := func(h string) headerSchemaProperty {
+		return headerSchemaProperty{Type: "string", XMCPHeader: vJSON(h)}
+	}
+	zzC12Props = map[string]headerSchemaProperty{
+		"p": leaf("Hp"),
+		"o1": {Type: "object", Properties: map[string]headerSchemaProperty{
+			"o2": {Type: "object", Properties: map[string]headerSchemaProperty{
+				"o3": {Type: "object", Properties: map[string]headerSchemaProperty{
+					"a": leaf("Ha"),
+					"b": leaf("Hb"),
+				}},
+				"c": leaf("Hc"),
+			}},
+		}},
+	}
+	want := map[string][]string{"Hp": {"p"}, "Ha": {"o1", "o2", "o3", "a"}, "Hb": {"o1", "o2", "o3", "b"}, "Hc": {"o1", "o2", "c"}}
+	got := extractParamHeaderAnnotations(&Tool{Name: "t"})
+	vAssert(len(got) == len(want), "C12.annotate.count")
+	for _, b := range got {
+		w := want[b.Header]
+		vAssert(len(b.Path) == len(w), "C12.annotate.path-of-own-property")
+		for i := range w {
+			vAssert(i < len(b.Path) && b.Path[i] == w[i], "C12.annotate.path-of-own-property")
+		}
+	}
+	vReach("end")
+}
